@@ -111,7 +111,16 @@ def run(F, rep):
     if n_exp < 10:
         raise AnalysisBroken('exported generating Annotator methods: %d found, 14 confirmed' % n_exp)
     rep.rule('C13.R2', 'update() rebuilds the index whenever the hash differs, and every replacement of the annotated model resets the cached hash (or rebuilds unconditionally) before update()')
-    bl = [c for c in upd.walk() if c.get('k') == 'Call' and c.get('fn') == 'buildIdList']
+    def _rebuilds(g_):
+        """the events that rebuild the index in g_: a call of buildIdList(), or the assignment of listIdsAndItems(...) to mIdList itself (buildIdList inlined)"""
+        out_ = [c for c in g_.walk() if c.get('k') == 'Call' and c.get('fn') == 'buildIdList']
+        for a_ in g_.walk():
+            c_ = a_.get('c', [])
+            if ((a_.get('k') == 'Call' and a_.get('opc') == '=') or (a_.get('k') == 'Bin' and a_.get('op') == '=')) and len(c_) == 2 and c_[0].get('k') == 'Member' and c_[0].get('n') == 'mIdList' \
+                    and any(x.get('k') == 'Call' and x.get('fn') == 'listIdsAndItems' for x in walk(c_[1])):
+                out_.append(a_)
+        return out_
+    bl = _rebuilds(upd)
     okb = bool(bl) and any(('mHash != hash', True) in (ff(upd).rendered_conds_at(c) or set()) or ('hash != mHash', True) in (ff(upd).rendered_conds_at(c) or set()) for c in bl)
     hs = [c for c in upd.walk() if c.get('k') == 'Call' and c.get('fn') == 'generateHash']
     rep.check(okb and bool(hs), 'C13.R2', 'update|rebuild-on-change', upd.where(), 'update() does not rebuild the id list exactly when the freshly generated hash differs from the stored one', 'buildIdList under mHash != generateHash()')
@@ -125,7 +134,7 @@ def run(F, rep):
                 if p is not None and p.get('k') == 'Call' and p.get('opc') == '=' and p['c'][0] is n:
                     n_w += 1
                     def is_reset(g, x):
-                        return (x.get('k') == 'Bin' and x.get('op') == '=' and x['c'][0].get('k') == 'Member' and x['c'][0].get('n') == 'mHash' and render(x['c'][1]) == '0') or (x.get('k') == 'Call' and x.get('fn') == 'buildIdList')
+                        return (x.get('k') == 'Bin' and x.get('op') == '=' and x['c'][0].get('k') == 'Member' and x['c'][0].get('n') == 'mHash' and render(x['c'][1]) == '0') or any(x is y for y in _rebuilds(g))
                     resets = [x for x in f.walk() if is_reset(f, x)]
                     # a callee that clears the index and resets the hash itself (clearAllIds())
                     for x in f.walk():
@@ -141,8 +150,8 @@ def run(F, rep):
                               'cached hash reset after the model is replaced')
     if n_w < 1:
         raise AnalysisBroken('no assignment to AnnotatorImpl::mModel found')
-    bil = F.fn1('Annotator::AnnotatorImpl::buildIdList')
-    rep.check(any(c.get('k') == 'Call' and c.get('fn') == 'listIdsAndItems' for c in bil.walk()), 'C13.R2', 'buildIdList|from-traversal', bil.where(), 'buildIdList no longer rebuilds from listIdsAndItems', 'index rebuilt from the model traversal')
+    bils = [g_ for g_ in F.funcs.values() if g_.file.endswith('/annotator.cpp') and any(a_.get('k') in ('Call', 'Bin') for a_ in _rebuilds(g_) if a_.get('fn') != 'buildIdList')]
+    rep.check(bool(bils), 'C13.R2', 'buildIdList|from-traversal', bils[0].where() if bils else upd.where(), 'the index (mIdList) is no longer rebuilt from listIdsAndItems anywhere in annotator.cpp', 'index rebuilt from the model traversal (in %s)' % (bils[0].name if bils else ''))
 
     # ------------------------------------------------------------------ K
     rep.rule('C13.K1', 'the traversals that list, hash, assign, clear, print-reserve and validate identifiers visit the same thirteen kinds of id')
@@ -280,6 +289,10 @@ def run(F, rep):
                     # loop conditions (index < count) are not conditions on the entity
                     if cn.get('k') == 'Bin' and cn.get('op') == '<':
                         continue
+                    # found-once bookkeeping done by a predicate helper of this file that is handed the id list (judged by rule L2)
+                    if cn.get('k') == 'Call' and not cn.get('opc') and any(F.funcs[ck_].file == g.file and (F.funcs[ck_].j.get('ret') or '') == 'bool' for ck_ in F.callee_keys(cn) if ck_ in F.funcs) \
+                            and any(render(a_) in ('idList', 'mIdList') for a_ in cn.get('c', [])):
+                        continue
                     extra.append((t, tr))
                 rep.check(not extra, 'C13.L1', '%s|%s' % (g.name, render(c)[:50]), g.where(c), '%s records this id only when %s' % (g.short, ' and '.join('`%s` is %s' % e for e in extra)[:160]), 'recorded whenever the id is non-empty')
     if n_l < 10:
@@ -300,7 +313,16 @@ def run(F, rep):
                 for x in walk(cn):
                     if x.get('k') == 'Ref' and x.get('dk') == 'local' and x.get('t') == 'bool':
                         flags[x['d']] = x['n']
-            if not flags:
+            # ... or the verdict of a predicate helper of this file (`if (!isConnectionListed(idList, id, variable, equivalentVariable))`)
+            helpers = []
+            for cn, br, st in _enc13(g, c):
+                for x in walk(cn):
+                    if x.get('k') == 'Call' and not x.get('opc') and not x.get('mc'):
+                        for ck in F.callee_keys(x):
+                            h_ = F.funcs.get(ck)
+                            if h_ is not None and h_.file == g.file and (h_.j.get('ret') or '') == 'bool' and any('idList' in render(a_) or 'IdList' in render(a_) for a_ in x.get('c', [])):
+                                helpers.append((x, h_))
+            if not flags and not helpers:
                 continue
             # the entities the recorded entry is made of: arguments of the set<Kind>() call on the entry in the same block
             blk = g.parent(c)
@@ -313,6 +335,20 @@ def run(F, rep):
                         for x in walk(a):
                             if x.get('k') == 'Ref' and x.get('dk') in ('local', 'parm'):
                                 ents.add(x['d'])
+            for x, h_ in helpers:
+                n_l2 += 1
+                # which parameters of the helper receive the entity, and does a positive verdict of the helper depend on them?
+                pos = [i_ for i_, a_ in enumerate(x.get('c', [])) if any(y.get('k') == 'Ref' and y.get('d') in ents for y in walk(a_))]
+                pds = {h_.params[i_]['d'] for i_ in pos if i_ < len(h_.params)}
+                evid_h = []
+                for a_ in h_.walk():
+                    if (a_.get('k') == 'Bin' and a_.get('op') == '=' and a_['c'][0].get('k') == 'Ref' and (a_['c'][0].get('t') or '') == 'bool' and not (a_['c'][1].get('k') == 'Bool' and not a_['c'][1].get('v'))) \
+                            or (a_.get('k') == 'Return' and a_.get('c') and not (a_['c'][0].get('k') == 'Bool' and not a_['c'][0].get('v'))):
+                        evid_h += [cn2 for cn2, br2, st2 in _enc13(h_, a_)] + ([a_['c'][0]] if a_.get('k') == 'Return' else [a_['c'][1]])
+                about_h = bool(pds) and any(y.get('k') == 'Ref' and y.get('d') in pds for e_ in evid_h for y in walk(e_))
+                rep.check(about_h or not ents, 'C13.L2', '%s|%s|%s' % (g.name, h_.name, render(c)[:40]), g.where(c),
+                          '%s suppresses the insertion on the verdict of %s, but that verdict does not depend on the entity being recorded: two different entities with the same id and kind are merged into one index entry' % (g.short, h_.name),
+                          'the already-recorded test (%s) looks at the entity being recorded' % h_.name)
             for d, nm in flags.items():
                 n_l2 += 1
                 evid = [v['c'][0] for v in g.walk() if v.get('k') == 'Var' and v.get('d') == d and v.get('c')]
